@@ -44,6 +44,7 @@ Sensible ==
   /\ cfg.type = "oem" \/ (cfg.npoints = 1 /\ cfg.nephem = 1 /\ cfg.interp = "lagrange8")
   /\ cfg.type # "tdm" \/ (cfg.cov = "none")
   /\ cfg.type = "tdm" \/ cfg.tdmpath = "one-way"
+  /\ cfg.type = "tdm" \/ cfg.grown = "no"                    \* only measurement sets are grown in place between two dumps
   /\ cfg.type # "omm" \/ (cfg.frame = "TEME" /\ cfg.scale = "UTC")
   /\ cfg.type = "omm" \/ cfg.frame # "TEME" \/ TRUE
 =============================================================================
